@@ -187,10 +187,10 @@ package dns
 //@ func (RR_Header).packHeader [C04]
 //@   callsite "packDomainName" whole: ref(arg1) == ref(msg) && sliceoff(arg1) == sliceoff(msg) && len(arg1) == len(msg) && arg2 == off
 //@   callsite "packDomainName" samemap: arg3.int == compression.int && arg3.ext == compression.ext
-//@ func packDataDomainNames [C04]
+//@ func packDataDomainNames [C04 C09]
 //@   callsite "packDomainName" whole: ref(arg1) == ref(msg) && sliceoff(arg1) == sliceoff(msg) && len(arg1) == len(msg) && arg2 == off
 //@   callsite "packDomainName" samemap: arg3.int == compression.int && arg3.ext == compression.ext
-//@ func packIPSECGateway [C04]
+//@ func packIPSECGateway [C04 C09]
 //@   callsite "packDomainName" whole: ref(arg1) == ref(msg) && sliceoff(arg1) == sliceoff(msg) && len(arg1) == len(msg) && arg2 == off
 //@   callsite "packDomainName" samemap: arg3.int == compression.int && arg3.ext == compression.ext
 //@ func unpackQuestion [C04]
